@@ -1475,17 +1475,25 @@ def _mk_case(rng, tier, mode):
             else:
                 case["rerun"] = ["run"]
     # edits between building and saving (top level of a workflow, sometimes inside its first macro child)
-    if root["kind"] == "wf" and rng.random() < 0.3 and not case["target"] and mode != "foreign":
+    if "spec" in root and rng.random() < 0.3 and not case["target"] and mode != "foreign":
         edits = []
         for _ in range(rng.randint(1, 2)):
             comp_path, sp = [], root["spec"]
             inner = [c for c in sp["children"] if c["kind"] in ("M1", "M2", "M3")]
-            if inner and rng.random() < 0.25:
+            if inner and rng.random() < 0.35:
                 comp_path, sp = [inner[0]["label"]], inner[0]["spec"]
             fs = [c for c in sp["children"] if c["kind"] == "F" and c["label"] not in [e[2] for e in edits]]
             if not fs:
                 continue
             tgt = rng.choice(fs)["label"]
+            in_macro = bool(comp_path) or root["kind"] != "wf"
+            if in_macro and rng.random() < 0.6:
+                # a value given to a child input directly, behind the back of the macro input that is linked to it
+                linked = [d[1] for d in sp.get("data", []) if d[0] == tgt and d[2][0] == "arg"]
+                edits.append(["setval", comp_path, tgt, rng.choice(linked or ["a", "b", "c"]), "direct"])
+                continue
+            if root["kind"] != "wf" and not comp_path:
+                continue
             kind = rng.choice(["replace", "replace", "replace", "readd", "relabel"])
             if kind == "replace":
                 edits.append(["replace", comp_path, tgt, rng.randrange(28)])
@@ -1747,6 +1755,11 @@ def corpus():
     for be in ("pickle", "file"):
         yield {"root": rz, "state": "ctlmid", "ctl": True, "resume": True, "schedule": [0, 0, 0, 0], "snap_at": -1,
                "backend": be, "rounds": 1, "target": [], "fail": [], "has_executor": True, "mode": "corpus"}
+    # a linked child input given a value directly (out of step with the macro input): the round trip keeps it
+    yield {"root": {"kind": "M1", "label": "m", "const": {"x": 1}, "spec": {
+        "children": [_leafF("a", 1)], "data": [["a", "a", ["arg", "x"]]], "returns": [["a", "o"]]}},
+        "state": "fresh", "mode": "corpus", "backend": "pickle", "rounds": 1, "target": [], "fail": [],
+        "edits": [["setval", [], "a", "a", "direct"]], "rerun": ["run"]}
     # a child on its own, nested, all three back ends
     for be in ("pickle", "cloudpickle", "file"):
         yield {"root": m1, "state": "run", "backend": be, "rounds": 2, "target": ["m", "c"], "fail": [], "mode": "corpus"}
